@@ -381,6 +381,7 @@ Theorem C19_resolved_reply_decodes : forall ovf pad xid ci hw mt yip router sid 
   Forall route_ok routes -> Forall (fun r => ip_ok (snd (fst r)) /\ ip_ok (snd r)) routes -> Forall raw_ok extra ->
   src = match sid with Some _ => sid | None => router end -> to4 src = Some s4 ->
   exists rt payload view,
+    (routes = [] -> rt = []) /\
     (routes <> [] -> classless routes = Ok rt /\ ref_routes (length routes + 1) rt = Some (map route_view routes)) /\
     build_dhcp4_reply Repaired pad xid ci yip src hw mt (resolved_opts lease mask sid router dns rt routes extra) = Ok payload /\
     bytes_ok payload /\
@@ -779,3 +780,77 @@ Example C19_reply_pad_nonvacuous :
     v_opts v0 = v_opts v1 /\ v_xid v0 = v_xid v1 /\ v_end v0 = EndSeen [] /\ v_end v1 = EndSeen (zeros 44).
 Proof. do 4 eexists. vm_compute. repeat split. Qed.
 Print Assumptions C19_reply_pad_nonvacuous.
+
+(* ================================================================ configuration -> wire (deepen round): pkg/dhcp.ResolveV4 *)
+(* ResolveV4 (router / server-id / DNS / netmask / route / raw-option selection from the operator's profile and the AAA
+   context) composed with the local server's reply builder.  Connected-subnet scenario, no AAA overrides, offered address
+   inside a configured IPv4 pool that names its gateway: the client decodes message type, lease time (3600 when unset),
+   the POOL's netmask, the server id (configured, else the router), the POOL's gateway, the profile's DNS servers, the
+   pool's raw options — in this order and nothing else; the frame around it verifies. *)
+Theorem C19_resolve_reply_connected : forall ovf pad xid ci hw mt addr pf p nip nmask g g4 sid s4 dl opts,
+  xid < 4294967296 -> (length hw <= 16)%nat -> pf_lease pf < 4294967296 -> ip_ok ci -> bytes_ok hw -> bytes_ok addr ->
+  find_pool addr (pf_pools pf) = Some p -> pl_net p = Some (nip, nmask) -> length nmask = 4%nat -> bytes_ok nmask ->
+  pl_gw_set p = true -> pl_gw p = Some g -> bytes_ok g -> to4 (Some g) = Some g4 ->
+  sid = first_some (pf_sid pf) (Some g) -> ip_ok sid -> to4 sid = Some s4 ->
+  pf_unnumbered pf = false -> pf_dns pf = map Some dl -> Forall bytes_ok dl ->
+  pl_opts p = map (fun o => (fst o, Some (snd o))) opts -> Forall raw_ok opts ->
+  let cx := {| cx_addr := addr; cx_gw := None; cx_mask := None; cx_dns := [] |} in
+  let lease := if pf_lease pf =? 0 then 3600 else pf_lease pf in
+  let intended := [(51, put32 lease); (1, nmask); (54, s4); (3, g4)]
+                  ++ (match dl with [] => [] | _ => nz 6 (dns_data (map Some dl)) end) ++ opts in
+  exists payload view,
+    (blen payload <= 65507 ->
+       exists f, resolve_and_reply Repaired ovf pad xid ci hw mt cx pf = Ok (Some f) /\
+                 frame4_ok f payload /\ frame4_fields f s4 bcast 67 68 /\ firstn 2 (skipn 26 f) <> [0; 0]) /\
+    ref_decode4 payload = Some view /\ v_xid view = xid /\ v_yiaddr view = ip4_field (Some addr) /\ v_siaddr view = s4 /\
+    v_chaddr view = hw ++ zeros (16 - length hw) /\ v_end view = EndSeen (zeros pad) /\
+    (forall code, opt_value code (v_opts view) = concat (map snd (filter (has_code code) ((53, [mt mod 256]) :: intended)))) /\
+    ((length (dns_data (map Some dl)) <= 255)%nat -> v_opts view = (53, [mt mod 256]) :: intended).
+Proof. exact resolve_reply_connected. Qed.
+Print Assumptions C19_resolve_reply_connected.
+
+(* unnumbered point-to-point model: /32 netmask and an RFC 3442 default route through the pool's gateway *)
+Theorem C19_resolve_reply_unnumbered : forall ovf pad xid ci hw mt addr pf p g g4 sid s4 dl opts,
+  xid < 4294967296 -> (length hw <= 16)%nat -> pf_lease pf < 4294967296 -> ip_ok ci -> bytes_ok hw -> bytes_ok addr ->
+  find_pool addr (pf_pools pf) = Some p -> pl_gw_set p = true -> pl_gw p = Some g -> bytes_ok g -> to4 (Some g) = Some g4 ->
+  sid = first_some (pf_sid pf) (Some g) -> ip_ok sid -> to4 sid = Some s4 ->
+  pf_unnumbered pf = true -> pf_dns pf = map Some dl -> Forall bytes_ok dl ->
+  pl_opts p = map (fun o => (fst o, Some (snd o))) opts -> Forall raw_ok opts ->
+  let cx := {| cx_addr := addr; cx_gw := None; cx_mask := None; cx_dns := [] |} in
+  let lease := if pf_lease pf =? 0 then 3600 else pf_lease pf in
+  let intended := [(51, put32 lease); (1, [255;255;255;255]); (54, s4); (3, g4)]
+                  ++ (match dl with [] => [] | _ => nz 6 (dns_data (map Some dl)) end) ++ [(121, 0 :: g4)] ++ opts in
+  ref_routes 2 (0 :: g4) = Some [(0, [], g4)] /\
+  exists payload view,
+    (blen payload <= 65507 ->
+       exists f, resolve_and_reply Repaired ovf pad xid ci hw mt cx pf = Ok (Some f) /\
+                 frame4_ok f payload /\ frame4_fields f s4 bcast 67 68 /\ firstn 2 (skipn 26 f) <> [0; 0]) /\
+    ref_decode4 payload = Some view /\ v_xid view = xid /\ v_yiaddr view = ip4_field (Some addr) /\
+    v_end view = EndSeen (zeros pad) /\
+    ((length (dns_data (map Some dl)) <= 255)%nat -> v_opts view = (53, [mt mod 256]) :: intended).
+Proof. exact resolve_reply_unnumbered. Qed.
+Print Assumptions C19_resolve_reply_unnumbered.
+
+(* a concrete profile: two pools, the second contains the address; precedence rules of ResolveV4 visible in the result *)
+Example C19_resolve_nonvacuous :
+  let m x := v4in6_prefix ++ x in
+  let p1 := {| pl_net := Some ([192;168;1;0], [255;255;255;252]); pl_gw_set := true; pl_gw := Some (m [192;168;1;1]); pl_opts := [] |} in
+  let p2 := {| pl_net := Some ([10;0;0;0], [255;255;255;0]); pl_gw_set := true; pl_gw := Some (m [10;0;0;254]);
+               pl_opts := [(66, Some [116;102;116;112]); (43, None)] |} in
+  let pf := {| pf_gw := Some (m [100;64;0;1]); pf_sid := None; pf_dns := [Some (m [8;8;8;8]); None; Some (m [10;0;0;1])];
+               pf_unnumbered := false; pf_lease := 0; pf_pools := [p1; p2] |} in
+  let cx := {| cx_addr := [10;0;0;7]; cx_gw := None; cx_mask := None; cx_dns := [] |} in
+  find_pool [10;0;0;7] (pf_pools pf) = Some p2 /\
+  rs_router (resolve_v4 cx pf) = Some (m [10;0;0;254]) /\ rs_sid (resolve_v4 cx pf) = Some (m [10;0;0;254]) /\
+  rs_mask (resolve_v4 cx pf) = [255;255;255;0] /\ rs_lease (resolve_v4 cx pf) = 3600 /\
+  exists f, resolve_and_reply Repaired false 0 7 None [1;2;3;4;5;6] 5 cx pf = Ok (Some f) /\
+    bind_opt (ref_decode4 (skipn 28 f)) (fun v => Some (v_opts v)) =
+      Some [(53, [5]); (51, [0;0;14;16]); (1, [255;255;255;0]); (54, [10;0;0;254]); (3, [10;0;0;254]);
+            (6, [8;8;8;8;10;0;0;1]); (66, [116;102;116;112])] /\
+    verifies (firstn 20 f) = true /\ verifies (pseudo4 f ++ skipn 20 f) = true /\
+  exists f', resolve_and_reply Repaired false 0 7 None [1;2;3;4;5;6] 5 cx
+               {| pf_gw := pf_gw pf; pf_sid := Some (m [10;9;9;9]); pf_dns := []; pf_unnumbered := true; pf_lease := 600; pf_pools := [p2] |} = Ok (Some f') /\
+    bind_opt (ref_decode4 (skipn 28 f')) (fun v => Some (v_opts v)) =
+      Some [(53, [5]); (51, [0;0;2;88]); (1, [255;255;255;255]); (54, [10;9;9;9]); (3, [10;0;0;254]); (121, [0;10;0;0;254]); (66, [116;102;116;112])].
+Proof. cbv zeta. vm_compute. repeat split. eexists. repeat split. eexists. repeat split. Qed.
+Print Assumptions C19_resolve_nonvacuous.
